@@ -14,6 +14,7 @@ from tbot.machine import channel, connector, linux
 from vlib import coq
 from vlib.framework import Suite
 from . import shell_common as sc
+from . import chan_common as cc
 
 PROP = "C01"
 TRUSTED = [
@@ -701,4 +702,145 @@ class E2ESuite(Suite):
             yield {"ash": ash, "chunk": rng.choice([1, 7, 4096, 4096]), "calls": calls}
 
 
-SUITES = [QuoteSuite(), ShLineSuite(), TtySuite(), ExecSuite(), E2ESuite()]
+
+
+# ------------------------------------------------------------------ _init_shell (Bash and Ash) against the model
+import shutil as _shutil              # noqa: E402
+
+
+def init_lines(ash):
+    """the configuration lines of _init_shell between the PS1 line and the sanity check"""
+    if ash:
+        return ["unset HISTFILE", "stty cols 1024", "PS2=''", "stty -echoctl"]
+    ts = _shutil.get_terminal_size()
+    return ["unset HISTFILE", "set +o emacs; set +o vi", "PS2=''", "stty -echoctl", "histchars=''",
+            f"stty cols {max(80, ts.columns - 48)}", f"stty rows {ts.lines}"]
+
+
+PS1_LINE = b"PROMPT_COMMAND=''; PS1='" + TBOT_PROMPT[:6] + b"''" + TBOT_PROMPT[6:] + b"'"
+
+
+class InitSim:
+    """a console with a shell that has just been started: reacts to every line with echo, output, prompt"""
+
+    def __init__(self, cfg, rng):
+        self.cfg = cfg
+        self.rng = rng
+        self.sh = LinuxSim()
+        self.lines = []
+
+    def frag(self, data, t0):
+        cfg, rng = self.cfg, self.rng
+        if not data:
+            return []
+        if cfg["frag"] == "bytes":
+            pieces = [data[i:i + 1] for i in range(len(data))]
+        elif cfg["frag"] == "whole":
+            pieces = [data]
+        else:
+            pieces = cc.rand_split(rng, data, 5)
+        out, t = [], t0
+        for p in pieces:
+            t += rng.choice([0, 0, 1, cfg["gap"]]) if cfg["gap"] else 0
+            out.append([t, bytes(p)])
+        return out
+
+    def initial(self):
+        return self.frag(self.cfg["banner"].encode() + b"$ ", self.cfg["d0"])
+
+    def react(self, line):
+        self.lines.append(line.hex())
+        n = len(self.lines)
+        d = self.cfg["delays"][n - 1] if n - 1 < len(self.cfg["delays"]) else 0
+        echo, out, ps1 = self.sh.react(line)
+        return self.frag(echo + out + ps1, d)
+
+
+def run_init(case):
+    from . import C18
+    cfg = case["cfg"]
+    rng = random.Random(case["seed"])
+    clock = sc.VirtualClock()
+    sim = InitSim(cfg, rng)
+    io = C18.RecIO(sim, clock)
+    res, first = None, None
+    with sc.patched_clock(clock), sc.quiet_log():
+        try:
+            with mk_machine(io, cfg["ash"])() as m:
+                res = [0]
+                t_init, w_init, n_st = clock.t, bytes(io.written), len(io.stage_log)
+                unread, pr = io.unread(), bytes(m.ch.prompt)
+                try:
+                    first = list(m.exec("echo", "first command"))
+                except Exception as e:  # noqa
+                    first = ["exc", type(e).__name__]
+        except tbot.error.UncleanShellError:
+            res = [1]
+        except TimeoutError:
+            res = [2, 1]
+        except cc.Blocked:
+            res = [2, 2]
+        except Exception as e:  # noqa
+            res = [8, type(e).__name__, str(e)[:80]]
+    if res == [0]:
+        case["_stages"] = [[[t, d.hex()] for t, d in st] for st in io.stage_log[:n_st]]
+        return [res, t_init, w_init, unread, pr, first]
+    case["_stages"] = [[[t, d.hex()] for t, d in st] for st in io.stage_log]
+    return [res, clock.t, bytes(io.written), io.unread(), b"", first]
+
+
+class InitSuite(Suite):
+    """Bash._init_shell / Ash._init_shell over a reactive console against coq/Sh.v init_shell"""
+    name = "init"
+    imports = ["Channel", "Hush", "Session", "Sh"]
+    model_fn = "init_model"
+    shard = 150
+
+    def run(self, case):
+        return run_init(case)
+
+    def coq_input(self, case):
+        ash = case["cfg"]["ash"]
+        sts = [[[t, bytes.fromhex(d)] for t, d in st] for st in case["_stages"]]
+        cfg = coq.lst(lambda x: coq.nlist(x.encode()), init_lines(ash), "(list N)")
+        return f"({coq.nlist(ASH_BL if ash else BASH_BL)}, PS1_LINE, {cfg}, {sc.stages_coq(sts)})"
+
+    def obs_term(self, case, obs):
+        res = obs[0]
+        if res == [1]:
+            return "(VL [VL [VN 1]])"       # the model also reports the offending output; compared loosely below
+        return coq.V([res, obs[1], obs[2], obs[3], obs[4]])
+
+    def oracle(self, case, obs):
+        cfg = case["cfg"]
+        fails = []
+        prompt_fast = cfg["d0"] < 150 and all(d < 150 for d in cfg["delays"]) and cfg["gap"] <= 1
+        if prompt_fast:
+            if obs[0] != [0]:
+                fails.append(f"the shell answers every line within 0.15 s but _init_shell gave {obs[0]!r}")
+            else:
+                if obs[4] != TBOT_PROMPT:
+                    fails.append(f"after _init_shell the channel's prompt is {obs[4]!r}")
+                if obs[3]:
+                    fails.append(f"console output left unread after _init_shell: {obs[3]!r}")
+                if obs[5] != [0, "first command\n"]:
+                    fails.append(f"the first command after _init_shell returned {obs[5]!r}")
+        return fails
+
+    def nontrivial(self, case, obs):
+        return True
+
+    def klass(self, case, obs):
+        return ("ash:" if case["cfg"]["ash"] else "bash:") + str(obs[0][0])
+
+    def gen(self, tier, rng):
+        for _ in range(500 if tier == "quick" else 4000):
+            slow = rng.random() < 0.3
+            yield {"cfg": {"ash": rng.random() < 0.5, "banner": rng.choice(["", "Welcome\r\n", "motd: TBOTLOGIN is coming\r\n"]),
+                           "d0": rng.choice([0, 0, 50, 300, 1000]) if slow else rng.choice([0, 50]),
+                           "delays": [rng.choice([0, 0, 100, 250, 600, 3500]) if slow else rng.choice([0, 0, 100]) for _ in range(12)],
+                           "frag": rng.choice(["whole", "random", "bytes"]), "gap": rng.choice([0, 0, 1, 40]) if slow else rng.choice([0, 1])},
+                   "seed": rng.randrange(1 << 30)}
+
+
+SUITES = [QuoteSuite(), ShLineSuite(), TtySuite(), InitSuite(), ExecSuite(), E2ESuite()]
